@@ -48,6 +48,8 @@ TStep ==
                            /\ Stutter /\ UNCHANGED requested
        \/ n = "ans"        /\ Share \in ReqOf(Ev.h) /\ ShareOk(Ev.h, Share) /\ UNCHANGED requested
        \/ n = "share_to"   /\ ShareTimeout(Ev.h, Share) /\ UNCHANGED requested
+       \/ n = "bad"        /\ Share \in ReqOf(Ev.h) /\ ShareBad(Ev.h, Share) /\ UNCHANGED requested
+       \/ n = "fatal"      /\ Stutter /\ UNCHANGED requested
        \/ n = "mark"       /\ Ev.ok = 1 /\ Complete(Ev.h) /\ obs'.marked /\ UNCHANGED requested
        \/ n = "result"     /\ UNCHANGED requested
                            \* a successful block is completed by the `mark` call that follows its result event
